@@ -497,7 +497,11 @@ func c13Coq(c *c13Case) string {
 }
 
 // ---------- generators ----------
-var c13HostPool = []string{"10.0.0.1", "10.0.0.2", "10.0.0.3", "10.0.0.4", "10.0.0.5", "10.0.0.6", "10.0.0.7", "10.0.0.8", "a", "ab", "b", "host-9", "host-10", "z.example"}
+// host names: among them families in which one name is a prefix of another that continues with digits (10.0.0.1 /
+// 10.0.0.11 / 10.0.0.110 / 10.0.0.12, a / a1 / a12, host-9 / host-91): the virtual-node names "<host>_<i>" of different
+// hosts must stay different
+var c13HostPool = []string{"10.0.0.1", "10.0.0.11", "10.0.0.2", "10.0.0.110", "10.0.0.3", "10.0.0.12", "10.0.0.4", "10.0.0.5", "10.0.0.6", "10.0.0.7", "10.0.0.8",
+	"a", "a1", "ab", "a12", "b", "host-9", "host-91", "host-10", "z.example", "10.0.0.124", "10.0.0.21"}
 var c13WeightPool = []int32{1, 1, 2, 3, 5, 9, 10, 11, 50, 99, 100, 101, 200, 999, 1000, 1001, 7, 7, 100, 100}
 var c13HostileWeights = []int32{0, 0, -1, -200, -2147483648, 2147483647, 2147483646, 65536, 1 << 30}
 var c13ConWeights = []int32{0, -5, 1, 3, 4, 5, 7, 8, 40, 100, 101, 400}
